@@ -6,7 +6,9 @@ import os
 V = "/verif"
 PY = "/venv/bin/python"
 
-COMMON_NOTE = ("Thorough tier = quick + all collection families + checker self-test (catalogued breaking variants of this property must be "
+COMMON_NOTE = ("Obligations the statement rests on but that are the subject of another property (e.g. copy-on-write writes nothing pre-existing, "
+               "the pass-through set of protect_via_deepcopy, the __deepcopy__ table) are re-stated and re-decided under this property's own rule ids. "
+               "Thorough tier = quick + all collection families + checker self-test (catalogued breaking variants of this property must be "
                "reported, catalogued behaviour-preserving variants must keep the verdict; each on a scratch copy of the current tree). Static: parses /repo/spec_classes (and the stdlib source of the inherited ABC mixins) on every run; never imports or runs "
                "the package; no solver. Trusted base: the abstract interpreter in /verif/sa (finite provenance domain, forked-and-merged "
                "paths, loops unrolled <=2), its models of builtins, stdlib ast. User callbacks are opaque (may raise / alias, do not mutate "
